@@ -1,5 +1,14 @@
 import PandoraModel.Properties.C13
 import PandoraModel.Properties.C13Steps
+import PandoraModel.Properties.C13Util
+import PandoraModel.Properties.C13Median
+import PandoraModel.Properties.C13Bilateral
+import PandoraModel.Properties.C13Refinement
+import PandoraModel.Properties.C13CrossCheck
+import PandoraModel.Properties.C13MatchingCost
+import PandoraModel.Properties.C13Pipeline
+import PandoraModel.Properties.C13Cbca
+import PandoraModel.Properties.C13Wiring
 open Pandora.C13
 #print axioms Local.comp
 #print axioms Local.pair
@@ -13,3 +22,78 @@ open Pandora.C13
 #print axioms toDisp_is_wtaStep
 #print axioms wtaStep_local
 #print axioms wta_crop_eq_whole
+#print axioms stencil_local_of_bounds
+#print axioms toImg_crop
+#print axioms crop_run_eq_whole
+#print axioms medianStep_local
+#print axioms medianStep_equivariant
+#print axioms medianFilterDisparity_is_medianStep
+#print axioms median_crop_eq_whole
+#print axioms refineStep_local
+#print axioms refineStep_equivariant
+#print axioms loopRefinement_ok_iff
+#print axioms loopRefinement_is_refineStep
+#print axioms refine_crop_eq_whole
+#print axioms ccPixel_eq_rel
+#print axioms ccPixelRel_congr
+#print axioms ccStep_local
+#print axioms ccCone_offset_zero
+#print axioms ccStep_equivariant
+#print axioms check_is_ccStep
+#print axioms cc_crop_eq_whole
+#print axioms valueSpec_transport
+#print axioms specCell_eq_core
+#print axioms coreCell_transport
+#print axioms mcCellStep_local
+#print axioms mcCellStep_equivariant
+#print axioms specCell_is_mcCellStep
+#print axioms costVolume_is_mcCellStep
+#print axioms mc_crop_eq_whole
+#print axioms costVolume_crop_eq_whole
+#print axioms mcConeK_le
+#print axioms mcRowStep_local
+#print axioms mcRowStep_equivariant
+#print axioms costVolume_is_mcRowStep
+#print axioms costStage_local
+#print axioms wtaStage_local
+#print axioms refineStage_local
+#print axioms filterStage_local
+#print axioms filterStage_equivariant
+#print axioms ccStage_local
+#print axioms ccStage_equivariant
+#print axioms pipeline_crop_eq_whole
+#print axioms filter_crop_eq_whole
+#print axioms pipeCone_documented
+#print axioms rightDisp_local
+#print axioms rightDisp_equivariant
+#print axioms bilateralKernel_congr
+#print axioms bilateralStep_local
+#print axioms bilateralStep_equivariant
+#print axioms bilateralFilterDisparity_is_bilateralStep
+#print axioms bilateral_crop_eq_whole
+#print axioms filtStage_local
+#print axioms filtStage_equivariant
+#print axioms bilateralStage_local
+#print axioms ccOn_local
+#print axioms ccOn_equivariant
+#print axioms aggOut_eq_aggSpec
+#print axioms region_transport
+#print axioms armCoded_transport
+#print axioms crossSupport_le_bound
+#print axioms crossSupport_horizontal_transport
+#print axioms crossSupport_vertical_transport
+#print axioms median3_transport
+#print axioms filteredL_transport
+#print axioms filteredR_transport
+#print axioms crossL_horizontal
+#print axioms crossL_vertical
+#print axioms crossR_horizontal
+#print axioms crossR_vertical
+#print axioms rightCol_transport
+#print axioms cbca_crop_eq_whole
+#print axioms ccStep_congr
+#print axioms ccOnT_eq_ccOn
+#print axioms ccOnT_local
+#print axioms ccOnT_equivariant
+#print axioms pipeConeT_documented
+#print axioms mc_wta_crop_eq_whole
